@@ -250,6 +250,10 @@ func check(c Case) *Failure {
 	if c.Op == "Seq" {
 		return checkSeq(c)
 	}
+	// round 7: -Inf held in a float operand of LogAdd/LogSub on an integer receiver is never converted: defined result
+	if f, done := checkIntLogNeutral(c); done {
+		return f
+	}
 	// an integer-typed reader of a float operand that does not fit: implementation-defined conversion, excluded
 	reader := c.TC
 	switch genericName(c.Op) {
